@@ -35,7 +35,7 @@ func runPrivID(a args) error {
 		}
 		return h
 	}
-	claimsOf := [][]string{nil, {"u"}, {"t"}}
+	claimsOf := [][]string{nil, {"u", "T"}, {"t"}} // "T" is not "t": it grants nothing
 	for ci := 0; ci < a.n; ci++ {
 		kind := []string{"bolt", "local"}[ci%2]
 		env := hx.NewEnv(kind, mercure.WithAnonymous())
